@@ -190,7 +190,10 @@ def step(st: State, op: str, a: dict, werr: bool, probes=(), micro=True, psame=T
     Tracer.active = (lambda s, o: mic.append(snapshot(s, o))) if micro else None
     try:
         with filt(werr):
-            getattr(st, op)(*pyargs(op, a))
+            if op == 'no_operate' and a.get('c'):
+                st.no_operate(commentary=a['c'])         # a commentary line (hand histories write it as '# ...')
+            else:
+                getattr(st, op)(*pyargs(op, a))
         out = 'ok'
     except ValueError:
         out = 'ValueError'
